@@ -108,3 +108,40 @@ def paired(field, cls, order):
         i = i - 1
     n = len(extra) if not orig.startswith('--') else 1
     return argv[:i + n] + extra + argv[i + n:] if order == 0 else argv[:i] + extra + argv[i:]
+
+
+WORDS = ['all', 'x', '', 'None', '1j', ' 2', '2 3']
+
+
+def word_sweep():
+    """every comma field of every option of the table's command lines holding a *word* instead of a number (the keyword
+    `all`, which is legal in one slot only; an empty field; a complex literal …), and every field deleted: the outcome
+    must still be usage error, diagnostic or report.  Yields (what, argv)."""
+    seen = set()
+    for f in FIELDS:
+        base = list(f['argv'])
+        for idx, a in enumerate(base):
+            if idx == 0 or not (a.startswith('--') and '=' in a or base[idx - 1] in ('-f', '-w', '-a', '-H')):
+                continue
+            if a.startswith('--') and '=' in a:
+                name, val = a.split('=', 1)
+                head = name + '='
+            else:
+                head, val = '', a
+            parts = val.split(',')
+            for pos in range(len(parts)):
+                for w in WORDS + [None]:
+                    q = list(parts)
+                    if w is None:
+                        del q[pos]
+                        if not q:
+                            continue
+                    else:
+                        q[pos] = w
+                    new = head + ','.join(q)
+                    key = (tuple(base[:idx]), new, tuple(base[idx + 1:]))
+                    if key in seen:
+                        continue
+                    seen.add(key)
+                    yield ('%s field %d %s' % (head or base[idx - 1], pos + 1, 'deleted' if w is None else 'holds %r' % w),
+                           base[:idx] + [new] + base[idx + 1:])
